@@ -85,7 +85,9 @@ func smallSil(r *vh.Rand, i int) Sil {
 	return s
 }
 
-func genHistory(r *vh.Rand, store int, last string) Case {
+// maintBefore: a maintenance run (snapshot) directly precedes the last change, so that change alone separates the
+// in-memory state from the file.
+func genHistory(r *vh.Rand, store int, last string, maintBefore bool) Case {
 	c := Case{Kind: "hist", Store: store}
 	kinds := []string{"log", "merge", "merge_big", "gc", "maint"}
 	if store == storeSilence {
@@ -117,6 +119,9 @@ func genHistory(r *vh.Rand, store int, last string) Case {
 	}
 	for i := 0; i < n; i++ {
 		c.Hist = append(c.Hist, mk(vh.Pick(r, kinds)))
+	}
+	if maintBefore {
+		c.Hist = append(c.Hist, mk("maint"))
 	}
 	c.Hist = append(c.Hist, mk(last))
 	return c
